@@ -141,3 +141,37 @@ Example C16_example_frame_hypotheses :
 Proof. split; [reflexivity|]. split; [reflexivity|]. split; [reflexivity|]. apply frame_refl. Qed.
 Goal True. idtac "ASSUMPTIONS-OF C16_example_frame_hypotheses". Abort.
 Print Assumptions C16_example_frame_hypotheses.
+
+(* REFUTED at full strength, on the regenerated F2008 table: "the tables of an accepted program are the scope tree of
+   its parse tree".  PROGRAM p / DO 10 i = 1, 3 / BLOCK / j = i / END BLOCK / 10 x = cos(1.0) / END PROGRAM p is
+   accepted, its tree holds ONE scoping statement named 2 (the BLOCK), the tables hold TWO children named 2: the
+   labelled DO is first tried as a block label-DO, which parses the BLOCK and then gives up at the terminal action
+   statement; a failing rule undoes its own scope (frame theorem above), not the table of an inner construct that
+   had COMPLETED; the second attempt enters the BLOCK again.  The implementation does exactly this (KNOWN_FINDINGS:
+   duplicate_block_table_after_backtracked_label_do, probed on every run by tools/props/c16.py). *)
+Fixpoint scope_uses (n : name) (t : tree) : nat :=
+  match t with
+  | TLeaf _ _ inf => if N.eqb (scope_name inf) n then 1 else 0
+  | TBlock _ kids => (fix go (l : list tree) : nat := match l with [] => 0 | k :: r => scope_uses n k + go r end) kids
+  end.
+Definition L_c16b (i : item) (c : cls) (_ : list cls) : leafres :=
+  let yes sl el sn un := LYes (mkInfo sl el None None sn un) in
+  match iid i with
+  | 0 => if N.eqb c Table08.cn_Program_Stmt then yes None None 1%N (Some 1%N) else LNo
+  | 1 => if N.eqb c Table08.cn_Label_Do_Stmt_08 || N.eqb c Table08.cn_Label_Do_Stmt then yes (Some 10%N) None 0%N None else LNo
+  | 2 => if N.eqb c Table08.cn_Block_Stmt_08 then yes None None 2%N None else LNo
+  | 3 => if N.eqb c Table08.cn_Assignment_Stmt then yes None None 0%N None else LNo
+  | 4 => if N.eqb c Table08.cn_End_Block_Stmt_08 then yes None None 0%N None else LNo
+  | 5 => if N.eqb c Table08.cn_Assignment_Stmt then yes None (Some 10%N) 0%N None else LNo
+  | _ => if N.eqb c Table08.cn_End_Program_Stmt then yes None None 0%N (Some 1%N) else LNo
+  end.
+Example C16_table_tree_equals_scope_tree_refuted :
+  let items := map (fun k => mkItem k IKLine false false (S k)) (seq 0 7) in
+  let r := program_new Table08.tbl L_c16b 200 Table08.c_program (est0 items false) in
+  match fst r with
+  | OTree t => yield t = items /\ scope_uses 2%N t = 1 /\ tops (sc (snd r)) = [STab 1%N [STab 2%N []; STab 2%N []]]
+  | _ => False
+  end.
+Proof. vm_compute. repeat split; reflexivity. Qed.
+Goal True. idtac "ASSUMPTIONS-OF C16_table_tree_equals_scope_tree_refuted". Abort.
+Print Assumptions C16_table_tree_equals_scope_tree_refuted.
